@@ -111,7 +111,7 @@ def cache_ops():
         'peek': (lambda c, v, r: c.peek(prefix='q', retry=r), 'write'),
         'peekitem': (lambda c, v, r: c.peekitem(retry=r), 'write'),
         'transact': (lambda c, v, r: _block(c, v, r), 'write'),
-        'check': (lambda c, v, r: [str(w.message) for w in c.check(retry=r)], 'write'),
+        'check': (lambda c, v, r: _check(c, r), 'write'),
         'clear': (lambda c, v, r: c.clear(retry=r), 'bulk'),
         'evict': (lambda c, v, r: c.evict('t', retry=r), 'bulk'),
         'expire': (lambda c, v, r: c.expire(retry=r), 'bulk'),
@@ -129,6 +129,12 @@ def cache_ops():
         'iterkeys': (lambda c, v, r: list(c.iterkeys())[:5], 'read'),
         'volume': (lambda c, v, r: c.volume() > 0, 'read'),
     }
+
+
+def _check(c, r):
+    from ..common import run_check
+
+    return run_check(c, retry=r)
 
 
 def _block(c, v, r):
